@@ -174,9 +174,10 @@ func init() {
 		Assumptions: []string{"go1.23.5 toolchain", "the battery is a sample of the type space (about 90 types); the property's quantifier over all types rests on C01-C04"},
 		Phases: func(tier universe.Tier) []*harness.Phase {
 			return []*harness.Phase{{
-				Name: "configurations",
-				Rule: "env(5x4) x legacy call(18) x placement(3) child processes (quick: env combinations are paired with calls along a Latin-square diagonal plus the full env matrix for the no-call row; thorough: full product); distinct by configuration",
-				Body: func(c *explore.C) { c17Body(c, tier) },
+				Name:           "configurations",
+				OncePerProcess: true,
+				Rule:           "env(5x4) x legacy call(18) x placement(3) child processes (quick: env combinations are paired with calls along a Latin-square diagonal plus the full env matrix for the no-call row; thorough: full product); distinct by configuration",
+				Body:           func(c *explore.C) { c17Body(c, tier) },
 			}}
 		},
 	})
